@@ -116,6 +116,9 @@ pub struct SimCtx {
     /// when set, the bytes every sandbox read returned are kept, per opened file, in order
     pub capture_reads: bool,
     pub reads: Vec<(String, Vec<u8>)>,
+    /// set by the watchdog when it gives up on this process: the runaway thread is parked at
+    /// its next sandbox call instead of consuming memory and CPU for the rest of the run
+    pub abandoned: Arc<std::sync::atomic::AtomicBool>,
     in_shim: bool,
 }
 
@@ -133,6 +136,7 @@ impl SimCtx {
             counts: [0; NCALLS],
             fds: Vec::new(),
             dirs: Vec::new(),
+            abandoned: Arc::new(std::sync::atomic::AtomicBool::new(false)),
             log: Vec::new(),
             fired: Vec::new(),
             gate: None,
@@ -243,6 +247,11 @@ enum Pre {
 /// Common prologue of every simulated sandbox call: scheduling gate, sequence number,
 /// crash point, fault lookup.
 fn pre(c: &mut SimCtx, call: Call) -> Pre {
+    if c.abandoned.load(Ordering::Relaxed) {
+        loop {
+            std::thread::park();
+        }
+    }
     if let Some(g) = c.gate.clone() {
         c.in_shim = true;
         g.park(c.pid);
